@@ -36,7 +36,7 @@ func init() {
 			{Pkg: bm, Func: "ZZ_C17_Conn_Or", Solver: "cvc5", Quick: tier(r21), Thorough: tier(r2)},
 			{Pkg: bm, Func: "ZZ_C17_Conn_And", Solver: "cvc5", Quick: tier(r21), Thorough: tier(r2)},
 			{Pkg: bm, Func: "ZZ_C17_Conn_Xor", Solver: "cvc5", Quick: tier(r21), Thorough: tier(r2)},
-			{Pkg: bm, Func: "ZZ_C17_Conn_XorThenExtract", Solver: "cvc5", Quick: tier(map[string]int{"runs": 1}), Thorough: tier(r2), Bounds: "two steps: XorCopy then Equal/Extract, observable results only"},
+			{Pkg: bm, Func: "ZZ_C17_Conn_XorThenExtract", Solver: "cvc5", Quick: tier(map[string]int{"runs": 1}), Thorough: tier(map[string]int{"runs": 1}), Bounds: "two steps: XorCopy then Equal/Extract, observable results only"},
 			{Pkg: bm, Func: "ZZ_C17_Conn_Sub", Solver: "cvc5", Quick: tier(r21), Thorough: tier(r2)},
 			{Pkg: bm, Func: "ZZ_C17_Conn_EqualCopy", Solver: "cvc5", Quick: tier(r2), Thorough: tier(r3)},
 			{Pkg: bm, Func: "ZZ_C17_Conn_Inject", Solver: "cvc5", Quick: tier(r2), Thorough: tier(r3)},
@@ -108,7 +108,7 @@ func init() {
 	ix := "internal/index"
 	registry["C04"] = CheckSpec{Property: "C04",
 		Harnesses: []HarnessSpec{
-			{Pkg: ix, Func: "ZZ_C04_Find", Quick: &Tier{Params: map[string]int{"level": 0, "maxlen": 3}, Samples: 30}, Thorough: &Tier{Params: map[string]int{"level": 1, "maxlen": 4, "exprhi": 400}, Samples: 100},
+			{Pkg: ix, Func: "ZZ_C04_Find", Quick: &Tier{Params: map[string]int{"level": 0, "maxlen": 3}, Samples: 30}, Thorough: &Tier{Params: map[string]int{"level": 1, "maxlen": 3, "exprhi": 400}, Samples: 100},
 				Bounds: "progressVariant.find vs. the real FindSubmatchIndex on the same buffer (both executed symbolically): expressions of ZZExprs(level), buffer of 0..maxlen symbolic bytes, every start offset, both directions"},
 			{Pkg: ix, Func: "ZZ_C04_Find", Desc: "fixed-length + constant suffix expressions, longer buffers", Quick: &Tier{Params: map[string]int{"level": 0, "maxlen": 5, "exprlo": 17, "exprhi": 18}, Samples: 10},
 				Thorough: &Tier{Params: map[string]int{"level": 0, "maxlen": 6, "exprlo": 17, "exprhi": 18}, Samples: 10}, Bounds: "[a-c]x, buffers up to 5 (6) bytes: decoy suffixes before the real match"},
@@ -167,8 +167,8 @@ func init() {
 				Bounds: "1..3 packets 40 minutes apart (80 minutes > 2^32 microseconds in total; every single gap below 2^32 microseconds, as the importer's 5 minute inactivity timeout guarantees)"},
 			{Pkg: ix, Func: "ZZ_C01_RoundTrip", Desc: "a payload chunk around the 64 KiB record limit", Quick: tier(func() map[string]int { m := P(1, 1, 2, 1, 1, 1, 1, 1, 1, 1, 1); m["bigpayload"] = 1; return m }()),
 				Bounds: "the first packet carries 65534..65537 bytes (first and last two symbolic, the rest a fixed pattern): split over two packet records"},
-			{Pkg: ix, Func: "ZZ_C01_RoundTrip", Desc: "two streams, one packet each, same capture, index bases in different 2^32 windows", Quick: tier(P(2, 2, 1, 1, 1, 1, 2, 2, 1, 1, 1)), Thorough: tier(P(2, 2, 1, 2, 1, 2, 3, 3, 1, 1, 1))},
-			{Pkg: ix, Func: "ZZ_C01_RoundTrip", Desc: "two streams, up to 2 packets each, two captures", Quick: tier(P(2, 2, 2, 0, 1, 2, 1, 1, 1, 1, 1)), Thorough: tier(P(2, 2, 2, 1, 1, 2, 1, 1, 1, 1, 1))},
+			{Pkg: ix, Func: "ZZ_C01_RoundTrip", Desc: "two streams, one packet each, same capture, index bases in different 2^32 windows", Quick: tier(P(2, 2, 1, 1, 1, 1, 2, 2, 1, 1, 1)), Thorough: tier(P(2, 2, 1, 1, 1, 2, 2, 2, 1, 1, 1))},
+			{Pkg: ix, Func: "ZZ_C01_RoundTrip", Desc: "two streams, up to 2 packets each, two captures", Quick: tier(P(2, 2, 2, 0, 1, 2, 1, 1, 1, 1, 1)), Thorough: tier(P(2, 2, 2, 0, 1, 2, 2, 1, 1, 1, 1))},
 			{Pkg: ix, Func: "ZZ_C01_SkipCounter", Quick: tier(nil), Bounds: "1 / 254 / 255 / 256 / 300 payload-less packets between two payload packets (sizes concretised), payload bytes symbolic"},
 		},
 		Assumptions: []string{"in-memory file system + typed encoding/binary codec + byte view of (*[N]byte)(unsafe.Pointer(&obj))", "stream validity as the importer produces it: >= 1 packet, non-decreasing timestamps, gaps < 2^32 us, payload indexes increasing, both addresses of one stream of equal length, distinct stream ids, distinct first source packets", "timestamps are concrete sample values (base 2023-11-14, offsets enumerated)"},
@@ -189,7 +189,7 @@ func init() {
 				Bounds: "input files written by the real writer; stream ids from a 2..3 element domain so overlap / shadowing is enumerated; addresses, ports, payload bytes symbolic; reference seconds of the files differ via start offsets; merged suffix enumerated"},
 			{Pkg: ix, Func: "ZZ_C07_Merge", Desc: "two files, up to two streams each", Quick: tier(M(2, 1, 0, 1, 1, 1, 1, 3, 1, 1, 1, 1)), Thorough: tier(M(2, 1, 1, 1, 1, 1, 1, 3, 1, 1, 1, 1))},
 			{Pkg: ix, Func: "ZZ_C07_Merge", Desc: "two files, two streams each, first-packet times earlier/later (time re-basing)", Quick: tier(M(2, 1, 0, 1, 1, 3, 1, 2, 1, 1, 1, 1, 1)), Thorough: tier(M(2, 1, 0, 1, 1, 3, 1, 3, 1, 1, 1, 1, 1))},
-			{Pkg: ix, Func: "ZZ_C07_Merge", Desc: "three files, suffix of 2 or 3 merged", Quick: tier(M(1, 1, 0, 1, 1, 1, 1, 2, 2, 1)), Thorough: tier(M(1, 1, 1, 1, 1, 2, 1, 3, 2, 1))},
+			{Pkg: ix, Func: "ZZ_C07_Merge", Desc: "three files, suffix of 2 or 3 merged", Quick: tier(M(1, 1, 0, 1, 1, 1, 1, 2, 2, 1)), Thorough: tier(M(1, 1, 0, 1, 1, 2, 1, 2, 2, 1))},
 			{Pkg: ix, Func: "ZZ_C07_Merge", Desc: "three files, the merge result merged again with the older file", Quick: tier(func() map[string]int { m := M(1, 1, 0, 1, 1, 1, 1, 2, 2, 1); m["remerge"] = 1; return m }()),
 				Bounds: "as the three-file entry; when the two newer files were merged, the result and the older file are merged again: one version per id, every id still resolves to its newest version"},
 		},
@@ -209,7 +209,7 @@ func init() {
 	names := []string{"id range", "ltime lower bound", "ltime upper bound", "ftime lower bound", "cport equality", "id range OR cport bound (lookup + no lookup)", "cbytes bound", "tag", "sport equality AND id bound", "time: some packet in range"}
 	for f, n := range names {
 		c02 = append(c02, HarnessSpec{Pkg: ix, Func: "ZZ_C02_Search", Solver: "cvc5", Desc: "query form: " + n,
-			Quick: tier(S(f, 1, []int{2, 3, 3, 3, 3, 2, 3, 3, 3, 2}[f], []int{2, 2, 2, 2, 2, 1, 2, 2, 2, 2}[f], []int{1, 2, 2, 2, 2, 1, 2, 2, 2, 1}[f], 1, 2)), Thorough: tier(S(f, 1, 7, 4, 2, 1, 2)),
+			Quick: tier(S(f, 1, []int{2, 3, 3, 3, 3, 2, 3, 3, 3, 2}[f], []int{2, 2, 2, 2, 2, 1, 2, 2, 2, 2}[f], []int{1, 2, 2, 2, 2, 1, 2, 2, 2, 1}[f], 1, 2)), Thorough: tier(S(f, 1, 4, 2, 2, 1, 2)),
 			Bounds: "SearchStreams over 1..2 index files (4 visible streams, one id shadowed by the newer file); query thresholds symbolic; sort key list, limit, skip, id restriction (symbolic allow bits) enumerated"})
 	}
 	c02 = append(c02, HarnessSpec{Pkg: ix, Func: "ZZ_C02_Search", Solver: "cvc5", Desc: "multi-key sorts whose first key ties",
